@@ -28,8 +28,9 @@ RULE = ("(model, parameters, small-distance policy, setter history of 0-10 "
         "decided.  "
         "Queries include exact zero distances (scalar and inside arrays). "
         "Integer angle arrays also as int16 / int8 / uint8; half of the second queries repeat the distances of the first after the setters. "
-        "Another object of the same class is configured between two queries of the model under test. ")
-ASSUMPTIONS = ["shadowing is off (use_shadow_bool False): it is random by design",
+        "Another object of the same class is configured between two queries of the model under test. "
+        "With shadowing on, the clamp policy and the (0,1] range are judged; the inverse of the indoor model is also asked with a wall count. ")
+ASSUMPTIONS = ["shadowing is off (use_shadow_bool False) for every value comparison: it is random by design; with it on, only the clamp policy and the range of the linear value are judged",
                "Okumura-Hata distances may leave [1,20] km (the model only warns)"]
 
 AREAS = ['open', 'suburban', 'medium city', 'large city']
@@ -315,10 +316,11 @@ def check_model(ctx, kind, m, twin_raise, p, handle, D, kw, hist, form):
         # models that do not offer an inverse say so (NotImplementedError or no
         # value at all); should one start answering, the answer must be exact
         pos = rf > 0
-        if pos.any() and not kw:
+        scalar_walls = isinstance(kw.get("num_walls"), int)
+        if pos.any() and (not kw or scalar_walls):
             try:
-                back = m.which_distance_dB(r)
-            except NotImplementedError:
+                back = m.which_distance_dB(r, **kw)
+            except (NotImplementedError, TypeError):      # (TypeError: no such argument)
                 back = None
             except Exception as e:       # noqa: BLE001
                 ctx.ev("inverse-distance", False, cls="not-offered:raised-%s" % type(e).__name__,
@@ -400,6 +402,25 @@ def case_model(ctx, rng, idx):
                 handle = not handle
                 m.handle_small_distances_bool = handle
                 hist = hist + ["handle="]
+    # with log-normal shadowing switched on the loss is random, but the policy for
+    # too-small distances and the range of the linear value still hold
+    try:
+        tw = make(kind, dict(p), True)
+        tw.use_shadow_bool = True
+        d0s = small_threshold(make(kind, dict(p), False), {}) or 0.0
+        Ds = d0s * 10.0 ** rng.uniform(-0.5, 1.5, size=24) if d0s > 0 else \
+            10.0 ** rng.uniform(-3, 0, size=24)
+        if kind == "hata":
+            Ds = np.maximum(Ds, 1e-3)
+        np.random.seed(int(rng.integers(0, 2 ** 31)))
+        rs = np.asarray(tw.calc_path_loss_dB(Ds.copy()), dtype=float)
+        ls = np.asarray(tw.calc_path_loss(Ds.copy()), dtype=float)
+        ctx.ev("small-distance-policy", bool(np.all(rs >= 0)) and bool(np.all((ls > 0) & (ls <= 1))),
+               cls="clamp-policy:with-shadowing",
+               detail={"model": kind, "params": p, "min_dB": float(rs.min()),
+                       "max_linear": float(ls.max())})
+    except RuntimeError:
+        ctx.tally("shadowing-check:query-refused")
     # another model object of the same class, configured and re-configured in
     # between two queries of THIS one, must not change what this one answers
     try:
